@@ -40,7 +40,8 @@ REQUIRED = ('streets_completed', 'draw_rounds_checked', 'burns_checked',
             'chunked_deals', 'fallback_streets', 'folded_player_streets',
             'discard_probes',
             'multi_board_streets', 'street_validation_probes',
-            'mixed_facing_draws')
+            'mixed_facing_draws',
+            'interleave_points')
 
 CUSTOMS = ('kuhn', 'draw5', 'stud5', 'greek', 'courchevel', 'holdem8',
            'plo8', 'badugi1', 'razzdraw', 'random', 'studdraw')
@@ -278,6 +279,11 @@ class DealMonitor(Monitor):
             elif not default:
                 if len(client[1]) > 1:
                     ctx.counters['explicit_player_deals'] += 1
+                    if client[1][1] is not None and client[1][1] != i:
+                        ctx.violate(
+                            f'{where}: the client dealt to player '
+                            f'{client[1][1]} explicitly, the cards went to '
+                            f'player {i}')
                 if k > 1 or (client[1] and isinstance(client[1][0], int)):
                     ctx.counters['chunked_deals'] += 1
             del owed[:k]
@@ -368,7 +374,7 @@ def probe_street_validation(res):
 
 
 def make_monitors():
-    return [driver.Observer(0.1), DealMonitor()]
+    return [driver.Observer(0.1), driver.Interleaver(), DealMonitor()]
 
 
 def gen_kwargs(rng):
